@@ -4,13 +4,16 @@ import TxdbusModel.Obj.Tree
 Driver for property C16 (exported-object tree).  One operation per line, one output line each.
 Strings travel as the hex of their code points (6 digits each, "-" = empty string).
 
-  reset                               -> ok
-  export <path> <payload> <iface>*    -> added <hdrPath> <argPath> <payload> <ifaces>
-  unexport <path>                     -> removed <hdrPath> <argPath> <ifaces> | keyerror
-  keys                                -> keys <paths>                       (insertion order)
-  call ping|introspect|managed|ordinary <path>
-        -> pong | intro <none|ifaces> <children> | managed <path>:<payload>:<ifaces>;… | unknown <path> | dispatch <payload>
-  orig introspect|managed <path>      -> the same with the pre-repair loops (F23 / F24), for the corpus
+  reset                                      -> ok
+  export <path> <sendable 0|1> (<iface>=<token>)*
+                                             -> added <hdrPath> <argPath> <iface>=<token>,… | raised
+  unexport <path>                            -> removed <hdrPath> <argPath> <ifaces> | raised
+  keys                                       -> keys <paths>                  (insertion order)
+  call <iface|none> <member> <path>
+        -> pong | intro <none|ifaces> <children> | managed <path>:<iface>=<token>,…;… |
+           error <errorname> <path> | error <errorname> | dispatch <first token of the object>
+  orig introspect|managed <path>             -> the same with the pre-repair loops (F23 / F24)
+  origexport <path> <sendable> (<iface>=<token>)*   -> like export with the pre-repair exportObject
 
 A list prints as its items joined by ","; the empty list as "[]".
 -/
@@ -21,50 +24,63 @@ namespace C16
 def strs (l : List Str) : String :=
   if l.isEmpty then "[]" else ",".intercalate (l.map charsToHex)
 
+def dict (l : Table Nat) : String :=
+  if l.isEmpty then "[]" else ",".intercalate (l.map fun (n, t) => charsToHex n ++ "=" ++ toString t)
+
 def entries (l : List Entry) : String :=
   if l.isEmpty then "[]" else
-  ";".intercalate (l.map fun (k, ifs, pl) => charsToHex k ++ ":" ++ toString pl ++ ":" ++ strs ifs)
+  ";".intercalate (l.map fun (k, d) => charsToHex k ++ ":" ++ dict d)
 
 def showSignal : Signal → String
-  | .interfacesAdded h a ifs pl => s!"added {charsToHex h} {charsToHex a} {pl} {strs ifs}"
+  | .interfacesAdded h a d => s!"added {charsToHex h} {charsToHex a} {dict d}"
   | .interfacesRemoved h a ifs => s!"removed {charsToHex h} {charsToHex a} {strs ifs}"
 
 def showStep (r : StepResult) : String :=
-  if r.keyError then "keyerror" else " | ".intercalate (r.sent.map showSignal)
+  if r.raised then "raised" else " | ".intercalate (r.sent.map showSignal)
 
 def showReply : Reply → String
   | .pong => "pong"
   | .introspection ifs kids =>
     "intro " ++ (match ifs with | none => "none" | some l => strs l) ++ " " ++ strs kids
   | .managed es => "managed " ++ entries es
-  | .unknownObject p => "unknown " ++ charsToHex p
-  | .dispatch o => s!"dispatch {o.payload}"
+  | .unknownObject p => "error " ++ charsToHex unknownObjectName ++ " " ++ charsToHex p
+  | .managedFailed => "error " ++ charsToHex managedFailedName
+  | .dispatch o => "dispatch " ++ (match o.ifaces with | (_, t) :: _ => toString t | [] => "?")
 
-def call? : String → Option Call
-  | "ping" => some .ping
-  | "introspect" => some .introspect
-  | "managed" => some .getManagedObjects
-  | "ordinary" => some .ordinary
+def iface? (s : String) : Option (Str × Nat) :=
+  match s.splitOn "=" with
+  | [n, t] => do
+    let n ← hexToChars? n
+    let t ← t.toNat?
+    pure (n, t)
   | _ => none
+
+def obj? (p sd : String) (ifs : List String) : Option Obj := do
+  let p ← hexToChars? p
+  let ifs ← ifs.mapM iface?
+  let sd ← (if sd == "1" then some true else if sd == "0" then some false else none)
+  pure { path := p, ifaces := ifs, sendable := sd }
 
 def step (e : Exports) (line : String) : Exports × String :=
   match words line with
   | ["reset"] => ([], "ok")
   | ["keys"] => (e, "keys " ++ strs (keys e))
-  | "export" :: p :: pl :: ifs =>
-    match hexToChars? p, pl.toNat?, ifs.mapM hexToChars? with
-    | some p, some pl, some ifs =>
-      let r := Tree.step e (.export { path := p, ifaces := ifs, payload := pl })
-      (r.exports, showStep r)
-    | _, _, _ => (e, "badinput")
+  | "export" :: p :: sd :: ifs =>
+    match obj? p sd ifs with
+    | some o => let r := Tree.step e (.export o); (r.exports, showStep r)
+    | none => (e, "badinput")
+  | "origexport" :: p :: sd :: ifs =>
+    match obj? p sd ifs with
+    | some o => let r := Tree.stepOrig e (.export o); (r.exports, showStep r)
+    | none => (e, "badinput")
   | ["unexport", p] =>
     match hexToChars? p with
     | some p => let r := Tree.step e (.unexport p); (r.exports, showStep r)
     | none => (e, "badinput")
-  | ["call", k, p] =>
-    match call? k, hexToChars? p with
-    | some k, some p => (e, showReply (handle e p k))
-    | _, _ => (e, "badinput")
+  | ["call", i, m, p] =>
+    match (if i == "none" then some none else (hexToChars? i).map some), hexToChars? m, hexToChars? p with
+    | some i, some m, some p => (e, showReply (handleMsg e p i m))
+    | _, _, _ => (e, "badinput")
   | ["orig", "introspect", p] =>
     match hexToChars? p with
     | some p => (e, "kids " ++ strs (introspectChildrenOrig p e))
